@@ -101,7 +101,11 @@ pub fn check_graph(item: u64, g: &GraphSpec, desc: &str, sig: &[Vec<isize>], acc
     // cached normalisation (only where the overall dod is positive)
     let omega = qf(&go.dod());
     let loops = go.cyclomatic(go.full());
-    if go.dod().is_positive() {
+    if go.dod().is_positive() && !(tv.graph_dod > 0.0) {
+        // the exact overall dod is positive but its f64 evaluation is not: outside the domain the
+        // library can recognise as accepted; nothing to compare
+        acc.count("cached_factor_skipped_overall_dod_rounds_to_nonpositive");
+    } else if go.dod().is_positive() {
         let want = normalisation_oracle(g, qf(&jx[full]), omega, loops);
         let rel = ((tv.cached_factor - want) / want).abs();
         // Gamma near its pole at 0 amplifies the rounding of omega itself
